@@ -429,6 +429,89 @@ def compare_reach(pairs, res):
             res.disagreements.append({'stream': 'reach', 'case': case, 'model': model, 'real': real})
 
 
+def render_line(case):
+    idx = dict((f['name'], i) for i, f in enumerate(case['files']))
+    files = []
+    for f in case['files']:
+        items = []
+        for it in f['items']:
+            if it[0] == 'text':
+                items.append([Atom('T'), it[1]])
+            elif it[0] == 'expr':
+                items.append([Atom('E'), it[1]])
+            elif it[0] == 'code':
+                items.append([Atom('C'), it[1], G.MULT[it[2]]])
+            else:
+                items.append([Atom('I'), idx[it[1]], _cap(it[2]), B(it[3])])
+        files.append([idx[f['name']], _cap(f['syn']), items])
+    return proto.line(Atom('C14'), Atom('render'), *(wire_cfg(case['cfg']) + [wire_root(case), files, 0,
+                      [idx[n] for n in case.get('history', [])]]))
+
+
+def _real_err(outcome, errfile, idx):
+    if outcome == 'ok':
+        return 'ok'
+    if outcome == 'TemplateSyntaxError':
+        # the file is unknown ('<string>') for templates without a path and for BadDirectiveError
+        return ['syntax', idx.get(errfile)]
+    if outcome == 'TemplateNotFound':
+        return 'notfound'
+    if outcome == 'RecursionError':
+        return 'diverge'
+    if outcome == 'ConfigurationError':
+        return 'config'
+    return outcome
+
+
+def _model_err(x):
+    if isinstance(x, list):
+        if str(x[0]) == 'Syntax':
+            return ['syntax', int(x[1])]
+        return str(x[0])
+    return str(x)
+
+
+def compare_render(pairs, res):
+    """the include-graph model's prediction (error and file, sentinel, output, history) vs the real run"""
+    answers = proto.run_lines([render_line(c) for c, _ in pairs])
+    for (case, obs), ans in zip(pairs, answers):
+        if ans == 'unmodelled':
+            res.count('model:unmodelled')
+            continue
+        res.streams['render'] = res.streams.get('render', 0) + 1
+        idx = dict((f['name'], i) for i, f in enumerate(case['files']))
+        real_ids = [int(t[1:-1]) for t in obs['out']]
+        real = {'err': _real_err(obs['outcome'], obs['errfile'], idx), 'sentinel': list(obs['sentinel']),
+                'out': real_ids, 'history': [_real_err(h[0], h[1] if h[0] != 'ok' else None, idx) for h in obs['history']]}
+        try:
+            m = proto.dec(ans)
+            model = {'err': _model_err(m[0]), 'sentinel': [int(x) for x in m[1]], 'out': [int(x) for x in m[2]],
+                     'history': [_model_err(h) for h in m[3]]}
+        except Exception:  # noqa
+            model = {'bad-answer': ans[:200]}
+            real = {'real': real}
+        def same_err(a, b):
+            if isinstance(a, list) and isinstance(b, list) and b[1] is None:
+                return a[0] == b[0]
+            return a == b
+        errs_ok = ('err' in model and same_err(model['err'], real['err'])
+                   and len(model['history']) == len(real['history'])
+                   and all(same_err(x, y) for x, y in zip(model['history'], real['history'])))
+        if model.get('err') == 'diverge' or 'diverge' in model.get('history', []):
+            # how far a run gets before the interpreter's recursion limit is not modelled: only the
+            # errors are compared, and "the model's sentinel is empty => so is the real one"
+            res.count('model:diverge')
+            ok = errs_ok and (bool(model['sentinel']) or not real['sentinel'])
+        else:
+            if model.get('err') != 'ok':
+                model['out'] = real['out'] = []
+            ok = errs_ok and model['sentinel'] == real['sentinel'] and model['out'] == real['out']
+        res.count('render-err:%s' % (model.get('err') if not isinstance(model.get('err'), list) else 'syntax'))
+        if not ok:
+            res.disagreements.append({'stream': 'render', 'case': case, 'model': json.dumps(model, sort_keys=True),
+                                      'real': json.dumps(real, sort_keys=True)})
+
+
 def compare_parseopt(res):
     """option parsing of every probed spelling on each plugin class vs parseOpt"""
     from genshi.template.plugin import MarkupTemplateEnginePlugin, TextTemplateEnginePlugin, ConfigurationError
@@ -483,6 +566,7 @@ def shard(arg):
         if fail:
             res.failures.append(fail)
     compare_reach(pairs, res)
+    compare_render(pairs, res)
     if idx == 0:
         compare_parseopt(res)
     res.samples = cases[:2]
